@@ -346,7 +346,9 @@ func (rn *c16Run) runConcurrent(idx int, base *c16Cfg, r *vk.Rng, rounds int) {
 	obs["rounds_all_dials_started_before_first_returned"] = overlapped
 	obs["server_alive_at_end"] = srv.Alive()
 	if !srv.Alive() {
-		rn.violate(c, c16ConcPrefix+"server-died", "thruserv exited while the clients were connecting", map[string]any{"log_tail": srv.LogTail(1500)})
+		if info, outside := rn.servGone(c, c16ConcPrefix+"server-died", srv); !outside {
+			rn.violate(c, c16ConcPrefix+"server-died", "thruserv exited while the clients were connecting", map[string]any{"log_tail": srv.LogTail(1500), "exit": info})
+		}
 	}
 	rn.mu.Lock()
 	rn.concRounds += roundsDone
